@@ -24,7 +24,13 @@ def finish (old : St) (r : St × String) : St × String :=
   let q := if r.1.stable.id ≠ old.stable.id then s!" q={distinctCount r.1.n r.1.stable}" else ""
   (r.1, s!"{r.2} {showState r.1}{q}")
 
-def step (s : St) (w : List String) : St × String :=
+/-- driver state: the engine state and which verifier runs (`mode fixed` selects the repaired one;
+    used only to run the harness against a tree that carries the proposed repair). -/
+structure DSt where
+  st : St := init 0 0 0
+  fixed : Bool := false
+
+def stepSt (V : Verifier) (s : St) (w : List String) : St × String :=
   match w with
   | ["new", dc, n, gr] =>
     match dc.toNat?, n.toNat?, gr.toNat? with
@@ -37,12 +43,19 @@ def step (s : St) (w : List String) : St × String :=
   | ["blk", id, parent, height, miner, rank, hdr, valid, sigs] =>
     match id.toNat?, parent.toNat?, height.toNat?, miner.toNat?, rank.toNat?, sig? hdr, valid.toNat?, sigs? sigs with
     | some id, some parent, some height, some miner, some rank, some hdr, some valid, some sigs =>
-      finish s (Stable.step verifyNewConfirms s (.block ⟨id, parent, height, miner, rank, hdr, sigs⟩ (valid != 0)))
+      finish s (Stable.step V s (.block ⟨id, parent, height, miner, rank, hdr, sigs⟩ (valid != 0)))
     | _, _, _, _, _, _, _, _ => (s, "bad-op")
   | ["cf", id, height, sigs] =>
     match id.toNat?, height.toNat?, sigs? sigs with
-    | some id, some height, some sigs => finish s (Stable.step verifyNewConfirms s (.confirms id height sigs))
+    | some id, some height, some sigs => finish s (Stable.step V s (.confirms id height sigs))
     | _, _, _ => (s, "bad-op")
   | _ => (s, "bad-op")
+
+def step (d : DSt) (w : List String) : DSt × String :=
+  match w with
+  | ["mode", "fixed"] => ({ d with fixed := true }, "ok")
+  | _ =>
+    let r := stepSt (if d.fixed then verifyNewConfirmsFixed else verifyNewConfirms) d.st w
+    ({ d with st := r.1 }, r.2)
 
 end Driver.C03
